@@ -290,8 +290,9 @@ func CheckC17(env *core.Env, rep *core.Report) *core.Result {
 				pr[sec].WriteString(text)
 			}
 		}
-		put(mask&1 != 0, 0, "  tg:\n    command: [\"echo tg\"]\n")
-		put(mask&2 != 0, 0, "  tp:\n    command: [\"echo tp\"]\n")
+		// both tasks run in the context cg, wherever that is defined: references cross the two files
+		put(mask&1 != 0, 0, "  tg:\n    context: cg\n    command: [\"echo tg Q=$Q\"]\n")
+		put(mask&2 != 0, 0, "  tp:\n    context: cg\n    command: [\"echo tp Q=$Q\"]\n")
 		put(mask&4 != 0, 1, "  cg:\n    env:\n      Q: \"1\"\n")
 		put(mask&8 != 0, 2, "  vg: \"vgvalue\"\n")
 		pr[0].WriteString("  usev:\n    command: [\"echo OBS {{.vg}}\"]\n")
@@ -313,7 +314,7 @@ func CheckC17(env *core.Env, rep *core.Report) *core.Result {
 		}
 		_ = ioutil.WriteFile(filepath.Join(proj, "tasks.yaml"), []byte(render(pr)), 0o644)
 		res := e.run(proj, home, 10*time.Second, "list")
-		run := e.run(proj, home, 10*time.Second, "--raw", "usev")
+		run := e.run(proj, home, 10*time.Second, "--raw", "usev", "tg", "tp")
 		n += 2
 		split := map[string]string{}
 		for k, d := range defs {
@@ -324,9 +325,9 @@ func CheckC17(env *core.Env, rep *core.Report) *core.Result {
 			}
 		}
 		ok := res.Exit == 0 && strings.Contains(res.Stdout, "- tg") && strings.Contains(res.Stdout, "- tp") && strings.Contains(res.Stdout, "- cg") && strings.Contains(res.Stdout, "- usev")
-		okv := run.Exit == 0 && strings.Contains(run.Stdout, "OBS vgvalue")
+		okv := run.Exit == 0 && strings.Contains(run.Stdout, "OBS vgvalue") && strings.Contains(run.Stdout, "tg Q=1") && strings.Contains(run.Stdout, "tp Q=1")
 		if !ok || !okv {
-			rep.Add(core.Finding{Prop: "C17", Key: "C17:global:definition-not-available", What: fmt.Sprintf("definitions split %v: list ok=%v (exit %d), variable visible=%v (exit %d: %s)", split, ok, res.Exit, okv, run.Exit, lastLine(run.Stderr)),
+			rep.Add(core.Finding{Prop: "C17", Key: "C17:global:definition-not-available", What: fmt.Sprintf("definitions split %v: list ok=%v (exit %d), variable and context usable by the tasks=%v (exit %d: %s)", split, ok, res.Exit, okv, run.Exit, lastLine(run.Stderr)),
 				Detail: map[string]interface{}{"split": split, "list": res.Stdout, "run": run.Stdout, "stderr": tailS(run.Stderr, 300)}})
 		}
 	}
